@@ -255,8 +255,8 @@ def run_parent(args):
         status = 1
     elif inconclusive:
         status = 2
-        for r in inconclusive:
-            lines.append('INCONCLUSIVE property=%s reason=%s' % (prop, r.replace('\n', ' | ')[:1200]))
+    for r in inconclusive:
+        lines.append('INCONCLUSIVE property=%s reason=%s' % (prop, r.replace('\n', ' | ')[:1200]))
     wall = time.time() - t0
 
     if not args.replay:
